@@ -155,7 +155,6 @@ function judge(c, resps) {
 
 function* cases(tier) {
   for (const prov of Object.keys(PROV)) for (const shape of Object.keys(SHAPES)) for (const decl of Object.keys(DECLS)) for (const plain of [false, true]) {
-    if (plain && tier !== 'thorough' && !(prov === 'vue')) continue;
     if (PROV[prov].wrap && ['exportConst', 'exportDefault'].includes(decl)) continue; // exports cannot be nested
     if (DECLS[decl].vueOnly && PROV[prov].vue !== true) continue; // the companion call uses the same callee
     yield { prov, shape, decl, plain };
